@@ -1,6 +1,5 @@
-from collections.abc import MutableMapping
+from collections.abc import Mapping, MutableMapping, Sequence
 from urllib.parse import urlsplit
-import itertools
 import json
 import pkgutil
 import re
@@ -161,7 +160,21 @@ def ensure_list(thing):
 def equal(one, two):
     """
     Check if two things are equal, but evade booleans and ints being equal.
+
+    Arrays and objects are compared member by member, so that the
+    distinction is made at every nesting depth.
     """
+    if isinstance(one, str) or isinstance(two, str):
+        return one == two
+    if isinstance(one, Sequence) and isinstance(two, Sequence):
+        return len(one) == len(two) and all(
+            equal(i, j) for i, j in zip(one, two)
+        )
+    if isinstance(one, Mapping) and isinstance(two, Mapping):
+        return len(one) == len(two) and all(
+            key in two and equal(value, two[key])
+            for key, value in one.items()
+        )
     return unbool(one) == unbool(two)
 
 
@@ -181,25 +194,17 @@ def uniq(container):
     """
     Check if all of a container's elements are unique.
 
-    Successively tries first to rely that the elements are hashable, then
-    falls back on them being sortable, and finally falls back on brute
-    force.
+    Tries first to rely that the elements are hashable, then falls back
+    on comparing them pairwise with `equal`.
     """
 
     try:
         return len(set(unbool(i) for i in container)) == len(container)
     except TypeError:
-        try:
-            sort = sorted(unbool(i) for i in container)
-            sliced = itertools.islice(sort, 1, None)
-            for i, j in zip(sort, sliced):
-                if i == j:
+        seen = []
+        for e in container:
+            for i in seen:
+                if equal(i, e):
                     return False
-        except (NotImplementedError, TypeError):
-            seen = []
-            for e in container:
-                e = unbool(e)
-                if e in seen:
-                    return False
-                seen.append(e)
+            seen.append(e)
     return True
